@@ -1,7 +1,11 @@
 #![doc = include_str!(concat!("../", env!("CARGO_PKG_README")))]
 
-#[cfg(feature = "dsl")]
+#[cfg(all(feature = "dsl", not(feature = "verif-hooks")))]
 mod dsl_hir;
+/// Verification hook (off by default): lets an external harness read the parsed DSL tree.
+#[cfg(all(feature = "dsl", feature = "verif-hooks"))]
+#[doc(hidden)]
+pub mod dsl_hir;
 mod lir;
 #[cfg(feature = "manifest")]
 mod manifest;
